@@ -55,7 +55,7 @@ impl Kind {
                 Entry::Lib => "lib",
                 Entry::Http => "http",
             },
-            if self.socket { "+socket".to_string() } else if self.reopen_pct > 0 { format!("+reopen{}", self.reopen_pct) } else { String::new() }
+            if self.socket && self.reopen_pct > 0 { format!("+executable+restart{}", self.reopen_pct) } else if self.socket { "+socket".to_string() } else if self.reopen_pct > 0 { format!("+reopen{}", self.reopen_pct) } else { String::new() }
         )
     }
 }
@@ -82,6 +82,8 @@ enum Front {
     Lib(Arc<Server>),
     Http(HttpApp),
     Sock(crate::net::SockServer),
+    /// the real executable on this subject's data directory
+    Bin { proc: crate::net::Proc, addr: String },
 }
 
 /// Harness-side handle to the storage a library `Server` owns, through the server's own
@@ -110,6 +112,8 @@ pub struct Subject {
     pub last_http: Option<(HttpReq, HttpResp)>,
     pub reopens: u64,
     pub tap: Option<crate::http::Tap>,
+    /// serve through the real executable (SQLite, HTTP over a socket); `reopen` = kill -9 + restart
+    pub binary: bool,
 }
 
 pub fn db_file(dir: &std::path::Path) -> PathBuf {
@@ -130,9 +134,43 @@ impl Subject {
                 (Arc::new(s), Some(d))
             }
         };
-        let mut s = Subject { kind, config, allowlist, storage, front: None, dir, wrap, last_http: None, reopens: 0, tap: None };
+        let mut s = Subject { kind, config, allowlist, storage, front: None, dir, wrap, last_http: None, reopens: 0, tap: None, binary: false };
         s.build_front();
         Ok(s)
+    }
+
+    /// A subject served by the real executable (SQLite backend), optionally with an allow-list.
+    pub fn with_binary(config: Config, allowlist: Option<HashSet<Uuid>>, reopen_pct: u32) -> anyhow::Result<Subject> {
+        let kind = Kind { backend: Backend::Sqlite, entry: Entry::Http, reopen_pct, socket: true };
+        let d = ScratchDir::new("dbbin");
+        let st = SqliteStorage::new(d.path())?;
+        let mut s = Subject { kind, config, allowlist, storage: Arc::new(st), front: None, dir: Some(d), wrap: None, last_http: None, reopens: 0, tap: None, binary: true };
+        s.start_binary()?;
+        Ok(s)
+    }
+
+    fn start_binary(&mut self) -> anyhow::Result<()> {
+        let bin = crate::net::server_bin().ok_or_else(|| anyhow::anyhow!("server binary not built"))?;
+        let mut last_err = String::new();
+        for _ in 0..4 {
+            let port = crate::net::free_port().ok_or_else(|| anyhow::anyhow!("no free port"))?;
+            let addr = format!("127.0.0.1:{port}");
+            let mut args: Vec<String> = vec!["--listen".into(), addr.clone(), "--data-dir".into(), self.dir.as_ref().unwrap().path().to_string_lossy().to_string(), "--snapshot-versions".into(), self.config.snapshot_versions.to_string(), "--snapshot-days".into(), self.config.snapshot_days.to_string()];
+            if let Some(l) = &self.allowlist {
+                for id in l {
+                    args.push("--allow-client-id".into());
+                    args.push(id.to_string());
+                }
+            }
+            match crate::net::Proc::start(&bin, &args, &[], &[addr.clone()], std::time::Duration::from_secs(20)) {
+                Ok(proc) => {
+                    self.front = Some(Front::Bin { proc, addr });
+                    return Ok(());
+                }
+                Err(e) => last_err = e,
+            }
+        }
+        anyhow::bail!("cannot start the server executable: {last_err}")
     }
 
     /// Open an existing data directory (takes ownership of the scratch dir).
@@ -149,6 +187,7 @@ impl Subject {
             last_http: None,
             reopens: 0,
             tap: None,
+            binary: false,
         };
         s.build_front();
         Ok(s)
@@ -230,6 +269,14 @@ impl Subject {
     /// Drop the storage object and the server and re-create both on the same directory (the
     /// schema setup is re-run). No-op for the in-memory backend.
     pub fn reopen(&mut self) -> anyhow::Result<()> {
+        if self.binary {
+            // kill -9 and restart on the same directory
+            self.front = None;
+            self.storage = Arc::new(SqliteStorage::new(self.dir.as_ref().unwrap().path())?);
+            self.start_binary()?;
+            self.reopens += 1;
+            return Ok(());
+        }
         if let (Backend::Sqlite, Some(d)) = (self.kind.backend, &self.dir) {
             self.front = None;
             let st = SqliteStorage::new(d.path())?;
@@ -244,6 +291,7 @@ impl Subject {
         let addr = match self.front.as_mut().unwrap() {
             Front::Http(app) => return app.request(req),
             Front::Sock(s) => s.addr.clone(),
+            Front::Bin { addr, .. } => addr.clone(),
             Front::Lib(_) => panic!("http request on a library subject"),
         };
         self.sock_call(&addr, req)
@@ -315,6 +363,14 @@ impl Subject {
                 d
             }
             Front::Lib(server) => lib_exec(server, client, req, true),
+            Front::Bin { addr, .. } => {
+                let addr = addr.clone();
+                let h = Self::build_http(client, req);
+                let r = self.sock_call(&addr, &h);
+                let d = Self::decode_http(req, &r);
+                self.last_http = Some((h, r));
+                d
+            }
             Front::Sock(s) => {
                 let addr = s.addr.clone();
                 let h = Self::build_http(client, req);
